@@ -122,16 +122,27 @@ pub fn boundary_clear_strategy() -> impl Strategy<Value = Op> {
 
 /// How cores are created/opened (so the same simulator runs on every backend).
 pub trait Env {
-    fn create(&self, kp: PartialKeypair) -> CallResult<Hypercore>;
-    fn open(&self) -> CallResult<Hypercore>;
+    fn create_with(&self, kp: PartialKeypair, cache: hc::CacheCfg) -> CallResult<Hypercore>;
+    fn open_with(&self, cache: hc::CacheCfg) -> CallResult<Hypercore>;
+    /// Contents of the four files as read back through the backend.
+    fn files(&self) -> crate::backend::Files;
+    fn create(&self, kp: PartialKeypair) -> CallResult<Hypercore> {
+        self.create_with(kp, hc::CacheCfg::Off)
+    }
+    fn open(&self) -> CallResult<Hypercore> {
+        self.open_with(hc::CacheCfg::Off)
+    }
 }
 
 impl Env for Disk {
-    fn create(&self, kp: PartialKeypair) -> CallResult<Hypercore> {
-        hc::create(self, kp)
+    fn create_with(&self, kp: PartialKeypair, cache: hc::CacheCfg) -> CallResult<Hypercore> {
+        hc::create_with(self, kp, cache)
     }
-    fn open(&self) -> CallResult<Hypercore> {
-        hc::open(self)
+    fn open_with(&self, cache: hc::CacheCfg) -> CallResult<Hypercore> {
+        hc::open_with(self, cache)
+    }
+    fn files(&self) -> crate::backend::Files {
+        self.snapshot()
     }
 }
 
